@@ -21,12 +21,13 @@ Max2(x, y) == IF x >= y THEN x ELSE y
 Min2(x, y) == IF x <= y THEN x ELSE y
 L(a, i) == IF i >= 1 /\ i <= Len(a) THEN a[i] ELSE 0
 
+\* index of the highest nonzero limb (0 if none), scanning down from i
+RECURSIVE TopNZ(_, _)
+TopNZ(a, i) == IF i = 0 THEN 0 ELSE IF a[i] # 0 THEN i ELSE TopNZ(a, i - 1)
 \* strip high zero limbs
 NNorm(a) ==
-  LET nz == {i \in 1..Len(a) : a[i] # 0}
-  IN IF nz = {} THEN <<>>
-     ELSE LET top == CHOOSE i \in nz : \A j \in nz : j <= i
-          IN IF top = Len(a) THEN a ELSE SubSeq(a, 1, top)
+  LET top == TopNZ(a, Len(a))
+  IN IF top = 0 THEN <<>> ELSE IF top = Len(a) THEN a ELSE SubSeq(a, 1, top)
 
 \* native non-negative int -> limbs
 RECURSIVE NFromInt(_)
@@ -35,31 +36,33 @@ NFromInt(n) == IF n = 0 THEN <<>> ELSE <<n % B>> \o NFromInt(n \div B)
 \* limbs -> native int (caller guarantees < 2^31)
 NToInt(a) == FoldRight(LAMBDA x, acc : acc * B + x, a, 0)
 
-\* carry pass: cols is a sequence of native column values (each < 2^31 - carry)
-CarryPass(cols) ==
-  LET st == FoldLeft(LAMBDA acc, c : LET t == c + acc[1]
-                                     IN <<t \div B, Append(acc[2], t % B)>>,
-                     <<0, <<>>>>, cols)
-  IN NNorm(st[2] \o NFromInt(st[1]))
+\* force a lazily defined function with domain 1..n into a tuple (each element evaluated once)
+Force(f) == SubSeq(f, 1, Len(f))
+(* carry/borrow pass: cols is a tuple of native column values (possibly >= B or negative).   *)
+(* Vector relaxation: every round moves each column's overflow one place up; after at most  *)
+(* three rounds only +-1 ripples remain.  No element-wise appends, so a pass is linear.      *)
+RECURSIVE Relax(_)
+Relax(v) ==
+  IF \A i \in 1..Len(v) : v[i] >= 0 /\ v[i] < B THEN v
+  ELSE LET n == Len(v)
+       IN Relax(Force([i \in 1..(n + 1) |-> (IF i <= n THEN v[i] % B ELSE 0) + (IF i > 1 THEN v[i - 1] \div B ELSE 0)]))
+CarryPass(cols) == NNorm(Relax(Force(cols)))
 
 NAdd(a, b) ==
   IF Len(a) = 0 THEN b ELSE IF Len(b) = 0 THEN a ELSE
   CarryPass([i \in 1..Max2(Len(a), Len(b)) |-> L(a, i) + L(b, i)])
 
+\* highest index at which a and b (same length) differ, 0 if equal
+RECURSIVE TopDiff(_, _, _)
+TopDiff(a, b, i) == IF i = 0 THEN 0 ELSE IF a[i] # b[i] THEN i ELSE TopDiff(a, b, i - 1)
 NCmp(a, b) ==                                   \* -1, 0, 1
   IF Len(a) # Len(b) THEN (IF Len(a) < Len(b) THEN -1 ELSE 1)
-  ELSE LET d == {i \in 1..Len(a) : a[i] # b[i]}
-       IN IF d = {} THEN 0
-          ELSE LET t == CHOOSE i \in d : \A j \in d : j <= i
-               IN IF a[t] < b[t] THEN -1 ELSE 1
+  ELSE LET t == TopDiff(a, b, Len(a))
+       IN IF t = 0 THEN 0 ELSE IF a[t] < b[t] THEN -1 ELSE 1
 
-\* a - b for a >= b (borrow pass; columns may be negative, \div and % floor in TLC)
+\* a - b for a >= b (columns may be negative; \div and % are the floor versions in TLC)
 NSub(a, b) ==
-  IF Len(b) = 0 THEN a ELSE
-  LET st == FoldLeft(LAMBDA acc, c : LET t == c + acc[1]
-                                     IN <<t \div B, Append(acc[2], t % B)>>,
-                     <<0, <<>>>>, [i \in 1..Len(a) |-> a[i] - L(b, i)])
-  IN NNorm(st[2])
+  IF Len(b) = 0 THEN a ELSE CarryPass([i \in 1..Len(a) |-> a[i] - L(b, i)])
 
 \* schoolbook product by native column sums (min(Len) <= 2000 keeps columns < 2^31)
 NMul(a, b) ==
@@ -75,22 +78,27 @@ NMulSmall(a, c) ==                              \* c native, 0 <= c < 2^(31-LB) 
 
 NSqr(a) == NMul(a, a)
 
-\* floor(a / c), a mod c for native 1 <= c < 2^(31-LB)
-NDivModSmall(a, c) ==
-  LET st == FoldRight(LAMBDA x, acc : LET t == acc[1] * B + x
-                                      IN <<t % c, <<t \div c>> \o acc[2]>>,
-                      a, <<0, <<>>>>)
-  IN [q |-> NNorm(st[2]), r |-> st[1]]
+\* floor(a / c), a mod c for native 1 <= c < 2^(31-LB): divide and conquer scan from the high limbs
+\* (the remainder is threaded through the halves; concatenations make it O(n log n))
+RECURSIVE DivScan(_, _, _)
+DivScan(a, c, rin) ==
+  IF Len(a) = 0 THEN <<<<>>, rin>>
+  ELSE IF Len(a) = 1 THEN LET t == rin * B + a[1] IN <<<<t \div c>>, t % c>>
+  ELSE LET h == Len(a) \div 2
+           H == DivScan(SubSeq(a, h + 1, Len(a)), c, rin)
+           Lw == DivScan(SubSeq(a, 1, h), c, H[2])
+       IN <<Lw[1] \o H[1], Lw[2]>>
+NDivModSmall(a, c) == LET st == DivScan(a, c, 0) IN [q |-> NNorm(st[1]), r |-> st[2]]
 
 BitLenSmall(x) ==                               \* native 0 <= x < 2^30
   IF x = 0 THEN 0 ELSE CHOOSE k \in 1..31 : Pow2(k - 1) <= x /\ (k = 31 \/ x < Pow2(k))
 NBitLen(a) == IF Len(a) = 0 THEN 0 ELSE LB * (Len(a) - 1) + BitLenSmall(a[Len(a)])
 
 TrailSmall(x) == CHOOSE k \in 0..30 : x % Pow2(k) = 0 /\ (x \div Pow2(k)) % 2 = 1
+RECURSIVE LowNZ(_, _)
+LowNZ(a, i) == IF a[i] # 0 THEN i ELSE LowNZ(a, i + 1)
 NTrailing(a) ==                                 \* a # 0
-  LET nz == {i \in 1..Len(a) : a[i] # 0}
-      lo == CHOOSE i \in nz : \A j \in nz : i <= j
-  IN LB * (lo - 1) + TrailSmall(a[lo])
+  LET lo == LowNZ(a, 1) IN LB * (lo - 1) + TrailSmall(a[lo])
 
 NIsOdd(a) == Len(a) > 0 /\ a[1] % 2 = 1
 
